@@ -19,6 +19,11 @@ Theorem C13_accepted_definitions_are_well_formed :
   forall (d : defn) (m : machine), front d = Ok m -> WF d.
 Proof. exact accepted_is_wf. Qed.
 
+(* in the property's own words: a definition violating any rule of the list is refused with a diagnostic *)
+Theorem C13_ill_formed_definitions_are_refused :
+  forall d : defn, ~ WF d -> exists e, front d = Err e.
+Proof. exact ill_formed_is_refused. Qed.
+
 (* The remaining rule -- one event, two transitions applicable to the same leaf -- is enforced by
    rustc on the expansion: the two transitions become two methods of the same name on one type
    (E0592).  If the generated impls pass that check, every leaf has at most one edge per event. *)
@@ -69,5 +74,6 @@ Example C13_accepts_example : accept_code false ex_defn = 0 /\ accept_code true 
 Proof. vm_compute. split; reflexivity. Qed.
 
 Print Assumptions C13_accepted_definitions_are_well_formed.
+Print Assumptions C13_ill_formed_definitions_are_refused.
 Print Assumptions C13_coherent_expansion_is_unambiguous.
 Print Assumptions C13_accepted_means_what_it_says.
